@@ -444,6 +444,7 @@ REG.add(Contract("RuleMatcher._find_rule_violations", module=M_RM, kind="method"
                  use_at_end=[f"{L}(evaluable._graph, self._updated_module_requirement._importers, self._updated_module_requirement._importees, self._updated_module_requirement._importer_specified_as_rule_subject, unwrap(explicitly_requested_dependencies))" for L in ("L_realised", "L_abstract")]
                  + [f"{L}(evaluable._graph, self._updated_module_requirement._importers, self._updated_module_requirement._importees, self._updated_module_requirement._importees_as_specified_by_user, unwrap(not_explicitly_requested_dependencies))" for L in ("L_or_f", "L_or_r", "L_om_f", "L_om_r")],
                  opaque=["realised_b", "abstract_b", "realised_m_b", "missing_b", "G_realised_b", "G_abstract_b", "G_or_f", "G_or_r", "G_om_f", "G_om_r"],
+                 cases=["self._updated_module_requirement._importer_specified_as_rule_subject", "self._behavior_requirement.behavior_exception"],
                  properties=["C01", "C03", "C12", "C13"]))
 
 
